@@ -525,6 +525,10 @@ impl<T: Qcow2IoOps> Qcow2Dev<T> {
         let mut wrote_reftable = false;
         loop {
             let rt = &*self.reftable.read().await;
+            // Wait for write-backs of refcount meta started by others
+            // (their slices look clean already): callers rely on all the
+            // refcount updates made so far being written when this returns.
+            let _wb_lock = self.refcount_wb_lock.lock().await;
             let done = self
                 .flush_meta_generic(
                     rt,
